@@ -88,6 +88,9 @@ def ts_occ(prog):
                 continue
             errs = []
             occupied = False
+            # a copy of a slot with one field adjusted (`evicted.psl += 1`) is as occupied as the slot it was copied from
+            while isinstance(itm_s, tuple) and itm_s and itm_s[0] == "upd" and itm_s[2] != "ptr":
+                itm_s = strip(itm_s[1])
             if mir.is_call(itm_s, "new") and "HashTableElement" in itm_s[1].key():
                 occupied = True
             else:
